@@ -114,8 +114,11 @@ def gen_world(rng, k):
                 packages=rng.sample(['foo-1.0', 'glib-2.0', 'gobject-2.0', 'Zlib'], rng.randint(0, 3)))
 
 
-def run_variant(world, hashseed=0, cache=None):
+def run_variant(world, hashseed=0, cache=None, swap=None):
     env = dict(os.environ)
+    env.pop('C16_SWAP', None)
+    if swap:
+        env['C16_SWAP'] = '%s|%s' % swap
     env['PYTHONHASHSEED'] = str(hashseed)
     env['PYTHONPATH'] = HERE + os.pathsep + REPO
     env['GIV_REPO'] = REPO
@@ -262,6 +265,40 @@ def main(tier, seed):
                              detail=dict(diff=[l for l in warm[0].splitlines() if l not in cold[0].splitlines()][:5]))
         elif first[0] == cold[0]:
             ck.tie_broken('harness', 'the two dependency files of the letter-case scenario give the same GIR: the scenario tests nothing')
+    # a dependency GIR replaced while the scan that fills the cache has just read it: a later scan with that cache must
+    # give what a scan without cache gives for the files as they are now
+    swap_jobs = None
+    try:
+        sroot = tempfile.mkdtemp(prefix='c16swap', dir=os.path.join(ROOT, 'build'))
+        cachedirs.append(sroot)
+        sdir = os.path.join(sroot, 'girs')
+        os.makedirs(sdir)
+        for f_ in ('GLib-2.0.gir', 'GObject-2.0.gir'):
+            shutil.copy(os.path.join(HERE, 'stubgir', f_), os.path.join(sdir, f_))
+        open(os.path.join(sdir, 'Dep-1.0.gir'), 'w').write(dep % '<record name="Old" c:type="DepOld"/>\n')
+        os.utime(os.path.join(sdir, 'Dep-1.0.gir'), (1500000000, 1500000000))
+        open(os.path.join(sroot, 'Dep-new.gir'), 'w').write(dep % '<record name="Thing" c:type="DepThing"/>\n')
+        sw = dict(decls=[dict(k='func', name='foo_take_thing', params=[['t', 'DepThing*']], ret='void', file='/src/foo.h', line=10)],
+                  blocks=[], includes=['GLib', 'GObject', 'Dep'], include_paths=[sdir])
+        c1, c2 = os.path.join(sroot, 'cacheA'), os.path.join(sroot, 'cacheB')
+        first = run_variant(sw, 0, c1, swap=(os.path.join(sdir, 'Dep-1.0.gir'), os.path.join(sroot, 'Dep-new.gir')))
+        warm = run_variant(sw, 0, c1)
+        cold = run_variant(sw, 0, c2)
+        swap_jobs = (first, warm, cold, sw)
+    except Exception as e:      # noqa
+        ck.tie_broken('harness', 'the replaced-dependency cache scenario could not be run: %r' % (e,))
+    if swap_jobs:
+        first, warm, cold, sw = swap_jobs
+        ck.count_case(dict(scenario='dependency replaced while the scan that fills the cache reads it'), kind='cache:replaced-during-scan')
+        if first[0] is None or warm[0] is None or cold[0] is None:
+            ck.tie_broken('harness', 'the replaced-dependency cache scenario failed: %s' % ((first[1] or warm[1] or cold[1]) or '')[-500:])
+        elif warm[0] != cold[0]:
+            ck.failing_input('the emitted GIR changes with the dependency cache: Dep-1.0.gir was replaced while the scan that filled '
+                             'the cache had just read it; a later scan with that cache differs from a scan without cache of the same files',
+                             dict(world=sw, dependency_first='<record name="Old">', dependency_now='<record name="Thing">'),
+                             detail=dict(diff=[l for l in warm[0].splitlines() if l not in cold[0].splitlines()][:5]))
+        elif first[0] == cold[0]:
+            ck.tie_broken('harness', 'the two dependency files of the replaced-dependency scenario give the same GIR: the scenario tests nothing')
     for c in cachedirs:
         shutil.rmtree(c, ignore_errors=True)
     base = {}
